@@ -278,10 +278,11 @@ def run_core(rep, pid, tier, profile, variants, n_quick, n_thorough, salt, repla
       from props import variants as V
       rejected_is_variant = detail.split(' (')[0].replace(' ', '').endswith('vsRuleCompile')
       printer = dict(variants)[vname if rejected_is_variant else 'plain']
+      printer = getattr(printer, 'reorder', printer)     # a printer that adds conjuncts permutes them itself
       pr = random.Random(s + '/reorder-meta')
-      for _ in range(10):
+      for _ in range(40):
         try:
-          tv = printer(V.permute_prog(prog, pr), random.Random(s + '/variant'))
+          tv = printer(V.permute_prog(prog, pr), random.Random('%s/variant/%d' % (s, _)) if hasattr(printer, '__name__') and printer.__name__ == '<lambda>' else random.Random(s + '/variant'))
         except Exception:  # pylint: disable=broad-except
           tv = None
         if not tv:
